@@ -3,13 +3,13 @@ CONSTANTS
   Segmented = TRUE
   Families = {"api", "cl", "chunk", "bigchunk"}
   CodeMode = "few"
-  HdrK = 2
+  HdrK = 1
   MaxHdrs = 1
-  MaxBody = 3
+  MaxBody = 2
   BodyMode = "len"
   StyleMode = "all"
   PhraseMode = "reg"
-  MaxBig = 12
+  MaxBig = 11
 SPECIFICATION MCSpec
 INVARIANTS SerValid RoundTrip ParCorrect Bounded LFIndexOk LemmaInv SrvDenotes NeverErr
 CHECK_DEADLOCK FALSE
